@@ -10,6 +10,7 @@ A4  the constant-multiplication rewrite splits the literal into magnitude and si
     edge of a test of that sign (a fast path that looks at the magnitude only drops the sign)
 A8  the overflow term of signed multiplication (computed on magnitudes) depends on the sign of the product
 A9  cross-reference: untyped constant sub-expressions are re-typed together with their top node (C05-S13)
+A10 the scanner bound of every suffixed number literal equals max() of its number type (token.rs): two tables that must agree
 A7  cross-reference: the peephole rewrites through which every operator network is built keep the function (C04 O4 / O5 / O7 / O9 / O10)
 """
 from .. import mir
@@ -517,5 +518,92 @@ def rule_a9(ctx):
     return res
 
 
+def _max_table(ctx, fid):
+    """variant -> constant returned as Some(..) by token::<NumType>::max (None for `None`)."""
+    body = ctx.body(fid)
+    out = {}
+    for b in range(body.n):
+        info = body.switch_info(b)
+        if not info:
+            continue
+        t = body.term(b)
+        for v, x in t["targets"]:
+            name = info[1].get(v)
+            val = "?"
+            for st in body.blocks[x]["stmts"]:
+                if st["k"] == "assign" and st["rv"]["k"] == "cast" and st["rv"]["op"]["k"] == "const":
+                    val = st["rv"]["op"].get("val")
+                if st["k"] == "assign" and st["place"]["l"] == 0 and st["rv"]["k"] == "aggregate":
+                    if st["rv"].get("variant") == "None":
+                        val = None
+                    elif st["rv"]["ops"] and st["rv"]["ops"][0]["k"] == "const":
+                        val = st["rv"]["ops"][0].get("val")
+            out[name] = val
+    return out
+
+
+def rule_a10(ctx):
+    """Sibling agreement of two tables: the scanner accepts a suffixed number literal only up to a bound written in scan.rs, every
+    later stage (range checks, wire widths) uses token::<NumType>::max().  A scanner bound above max() lets a literal through that
+    is then cut down to the width of its type (`4294967296usize as u64` = 0)."""
+    from . import C02
+    res = RuleResult("A10", "the scanner's bound for every suffixed number literal equals max() of that number type")
+    tables = {"token::UnsignedNumType": _max_table(ctx, "token::UnsignedNumType::max"), "token::SignedNumType": _max_table(ctx, "token::SignedNumType::max")}
+    fs = [f for f in ctx.fns.values() if f.get("mir") and f["id"].endswith("::scan") and f["sp"][0] == "src/scan.rs" and "Scanner" in f["id"]]
+    if len(fs) != 1:
+        raise AnchorMissing("A10: Scanner::scan not found")
+    body = ctx.body(fs[0]["id"])
+    # comparisons `n <= K` with a constant K and the edge on which they hold
+    les = []
+    for b, blk in enumerate(body.blocks):
+        for i, st in enumerate(blk["stmts"]):
+            if st["k"] == "assign" and st["rv"]["k"] == "binop" and st["rv"]["op"] == "Le" and st["rv"]["r"]["k"] in ("copy", "move"):
+                ks = [d[3]["rv"]["op"].get("val") for d in body.defs().get(st["rv"]["r"]["place"]["l"], [])
+                      if d[0] == "assign" and d[3]["rv"]["k"] == "cast" and d[3]["rv"]["op"]["k"] == "const"]
+                if len(ks) != 1:
+                    continue
+                res_local = st["place"]["l"]
+                for sb in range(body.n):
+                    t = body.term(sb)
+                    if t and t["k"] == "switch" and t["discr"]["k"] in ("copy", "move") and t["discr"]["place"]["l"] == res_local and all(v == 0 for v, _ in t["targets"]):
+                        les.append((ks[0], (sb, t["otherwise"])))
+    n = 0
+    for b, blk in enumerate(body.blocks):
+        if blk["cleanup"]:
+            continue
+        for st in blk["stmts"]:
+            if st["k"] != "assign" or st["rv"]["k"] != "aggregate" or st["rv"].get("adt") != "token::TokenEnum" or st["rv"].get("variant") not in ("UnsignedNum", "SignedNum"):
+                continue
+            ops = st["rv"]["ops"]
+            if len(ops) != 2 or ops[1]["k"] not in ("copy", "move"):
+                continue
+            var = None
+            for (r, p) in body.trace(ops[1]["place"], through={}):
+                if r[0] == "agg" and not p:
+                    a = body.blocks[r[1]]["stmts"][r[2]]["rv"]
+                    if a.get("adt") in tables:
+                        var = (a["adt"], a["variant"]) if var in (None, (a["adt"], a["variant"])) else "many"
+                else:
+                    var = "many"
+            if not var or var == "many":
+                continue
+            mx = tables[var[0]].get(var[1], "?")
+            if mx is None or mx == "?":
+                continue
+            n += 1
+            holding = [k for (k, e) in les if C02._dominated_by_edges(body, {e}, b)]
+            if mx in holding or (mx == 2**64 - 1 and not holding):
+                res.ok({"suffix": var[1], "bound": mx, "verdict": "scanner bound = max() of the type"})
+            elif not holding:
+                res.bad(Finding("A10", body.id, "%s literal accepted without a bound" % var[1], "no comparison with a constant dominates the token of a %s literal (max() = %s)" % (var[1], mx), st["sp"]))
+            else:
+                res.bad(Finding("A10", body.id, "%s literal bounded by %s, max() is %s" % (var[1], "/".join(str(k) for k in sorted(set(holding))), mx),
+                                "the scanner accepts %s literals above max() of the type; later stages cut them down to the width of the type "
+                                "(`7 < 4294967296usize` is false, `4294967296usize as u64` is 0)" % var[1], st["sp"]))
+    if n < 7 and not res.findings:
+        raise AnchorMissing("A10: expected the suffixed literal tokens of the scanner, found %d" % n)
+    return res
+
+
 def run(ctx):
-    return ctx.run_rules([rule_a1, rule_a2, rule_a3, rule_a4, rule_a5, rule_a6, rule_a7, rule_a8, rule_a9])
+    return ctx.run_rules([rule_a1, rule_a2, rule_a3, rule_a4, rule_a5, rule_a6, rule_a7, rule_a8, rule_a9, rule_a10])
